@@ -19,7 +19,7 @@ def units_for_file(rel):
     res = []
     for p in sorted(glob.glob(os.path.join(VERIF, 'units', '*.vu'))):
         name = os.path.splitext(os.path.basename(p))[0]
-        if name.startswith(('total_', 'tags_', 'variants_', 'mtser_', 'msgparse_')):
+        if name.startswith(('total_', 'tags_', 'variants_')) or (name.startswith(('mtser', 'msgparse_')) and not rel.startswith('messages/')):
             continue
         txt = open(p).read()
         incs = re.findall(r'^//@include (inc/\S+)', txt, re.M)
